@@ -667,3 +667,85 @@ _c02_base4 = contracts
 
 def contracts():
     return _c02_base4() + [dynamic_set_contract(False), dynamic_set_contract(True)]
+
+
+# ---------------------------------------------------------------------------------------------
+# concrete probe: parameters whose constraints come from the file system (FileSelector, MultiFileSelector,
+# Path/Filename/Foldername): a rejected assignment changes nothing, whatever happened on disk meanwhile
+# ---------------------------------------------------------------------------------------------
+FILES_REPLAY = '''import sys, os, tempfile, shutil, itertools, logging
+sys.path.insert(0, os.environ.get('PYVC_REPO', '/repo'))
+logging.disable(logging.WARNING)
+import param
+bad = []
+def snapshot(owner, name):
+    p = owner.param[name]
+    return {'value': getattr(owner, name), 'objects': list(getattr(p, 'objects', []) or []), 'default': p.default,
+            'names': dict(getattr(p, 'names', {}) or {})}
+root = tempfile.mkdtemp(prefix='pyvc_files_')
+try:
+    for kind, disk_change, route in itertools.product(('FileSelector', 'MultiFileSelector'), ('none', 'add', 'remove-current', 'remove-other'),
+                                                      ('class', 'class-update', 'instance', 'instance-update', 'subclass')):
+        d = os.path.join(root, '%s_%s_%s' % (kind, disk_change, route)); os.makedirs(d)
+        files = [os.path.join(d, n) for n in ('a.txt', 'b.txt', 'c.txt')]
+        for f in files:
+            open(f, 'w').close()
+        glob = os.path.join(d, '*.txt')
+        if kind == 'FileSelector':
+            P = type('P', (param.Parameterized,), {'f': param.FileSelector(path=glob)})
+            bad_value = os.path.join(d, 'nope.txt')
+        else:
+            P = type('P', (param.Parameterized,), {'f': param.MultiFileSelector(path=glob, default=[files[0]])})
+            bad_value = [os.path.join(d, 'nope.txt')]
+        Q = type('Q', (P,), {})
+        inst = P()
+        seen = []
+        P.param.watch(lambda e: seen.append(('class', e.what, e.name)), 'f', what='objects')
+        inst.param.watch(lambda e: seen.append(('inst', e.what, e.name)), 'f')
+        current = P.f if kind == 'FileSelector' else P.f[0]
+        if disk_change == 'add':
+            open(os.path.join(d, 'd.txt'), 'w').close()
+        elif disk_change == 'remove-current':
+            os.remove(current)
+        elif disk_change == 'remove-other':
+            os.remove([f for f in files if f != current][0])
+        before = {'class': snapshot(P, 'f'), 'instance': snapshot(inst, 'f'), 'subclass': snapshot(Q, 'f'), 'own': 'f' in Q.__dict__}
+        del seen[:]
+        try:
+            if route == 'class':
+                P.f = bad_value
+            elif route == 'class-update':
+                P.param.update(f=bad_value)
+            elif route == 'instance':
+                inst.f = bad_value
+            elif route == 'instance-update':
+                inst.param.update(f=bad_value)
+            else:
+                Q.f = bad_value
+        except ValueError:
+            pass
+        except Exception as e:
+            bad.append('%s, files on disk: %s, route %s: raised %r instead of ValueError' % (kind, disk_change, route, e)); continue
+        else:
+            bad.append('%s, files on disk: %s, route %s: a value that is no file of the directory was accepted' % (kind, disk_change, route)); continue
+        invoked = list(seen)
+        after = {'class': snapshot(P, 'f'), 'instance': snapshot(inst, 'f'), 'subclass': snapshot(Q, 'f'), 'own': 'f' in Q.__dict__}
+        if after != before:
+            diff = [k for k in before if before[k] != after[k]]
+            bad.append('%s, files on disk: %s, rejected assignment by route %s changed %s: %r -> %r'
+                       % (kind, disk_change, route, diff, {k: before[k] for k in diff}, {k: after[k] for k in diff}))
+        if invoked:
+            bad.append('%s, files on disk: %s, rejected assignment by route %s invoked watchers %r' % (kind, disk_change, route, invoked))
+finally:
+    shutil.rmtree(root, ignore_errors=True)
+# (the copy a subclass gets re-reads the directory and announces its objects: a recorded finding, printed last
+# so that anything else is reported first)
+bad.sort(key=lambda b: 'route subclass invoked watchers' in b)
+for b in bad:
+    print(b.replace(root, '<tmp>'))
+if bad:
+    print('REPRODUCED'); sys.exit(1)
+print('NOT-REPRODUCED'); sys.exit(0)
+'''
+
+PROBES = [("a rejected assignment to a file-system backed Selector changes nothing", FILES_REPLAY)]
